@@ -1333,9 +1333,15 @@ class Interp(Ops):
         for p in list(params):
             if p.startswith("**"):
                 params.remove(p)
-                kw = dict(kwargs)
-                kwargs = {}
-                am[p[2:]] = kw["**"] if set(kw) == {"**"} else self.new_dict(kw)
+                named = [q for q in params if not q.startswith("*")]
+                kw = {k: v for k, v in kwargs.items() if k not in named}      # keywords that name a parameter are bound below
+                kwargs = {k: v for k, v in kwargs.items() if k in named}
+                if set(kw) == {"**"}:
+                    am[p[2:]] = kw["**"]
+                elif "**" in kw:
+                    raise Unsupported(f"call of {c.fn} mixes explicit keywords {sorted(set(kw) - {'**'})} with a symbolic ** mapping")
+                else:
+                    am[p[2:]] = self.new_dict(kw)
         star = None
         for i, p in enumerate(params):
             if p.startswith("*"):
